@@ -89,6 +89,9 @@ func verifyFromHscTx(native *native.NativeService, proof, extra []byte, fromChai
 	if err != nil {
 		return nil, fmt.Errorf("verifyFromHscTx, GetCanonicalHeader height:%d, error:%s", height, err)
 	}
+	if headerWithSum == nil {
+		return nil, fmt.Errorf("verifyFromHscTx, GetCanonicalHeader height:%d, error:no canonical header at this height", height)
+	}
 
 	hscProof := new(Proof)
 	err = json.Unmarshal(proof, hscProof)
